@@ -267,6 +267,7 @@ type Obligation struct {
 	script   *Script
 	extra    []string // extra assertions local to this obligation
 	Desc     string
+	NoRetry    bool     // a recorded known finding: no extended-budget retry
 	OwnerProps []string // for call-site preconditions: the properties the callee's contract serves
 }
 
@@ -454,7 +455,7 @@ func Solve(o *Obligation, timeoutS int, confirm bool) *Result {
 		r.Status = st
 		r.Solver = sp.name
 	}
-	if want == "unsat" && (r.Status == "timeout" || r.Status == "unknown") && !noRetry {
+	if want == "unsat" && (r.Status == "timeout" || r.Status == "unknown") && !noRetry && !o.NoRetry {
 		// Undecided within the ordinary budget.  Before this is reported, give the obligation a longer budget with three
 		// differently seeded runs side by side: solver run time on quantified goals varies with declaration order and
 		// seed, and an obligation near the budget must not turn into an alarm on code where it holds.
